@@ -186,6 +186,15 @@ static void prop_determinism(Tape &t, Ctx &c) {
         return d;
     };
     std::string ref = run(0x00, false, sec0);
+    // applying the same solver object twice to the same input gives bitwise the same (iters, resid, x)
+    {
+        size_t b1 = std::string::npos, b2 = std::string::npos;
+        for (auto &s : sec0) { if (s.first == "solve") b1 = s.second; if (s.first == "second-solve") b2 = s.second; }
+        if (b1 != std::string::npos && b2 != std::string::npos && ref.find("|EXC:") == std::string::npos) {
+            std::string s1 = ref.substr(b1, b2 - b1), s2 = ref.substr(b2);
+            VF_REQUIRE(s1 == s2, "second solve with the same solver object and the same input differs from the first one (state leaks between calls)");
+        }
+    }
     c.label(ref.find("|EXC:") != std::string::npos ? "outcome:exception" : "outcome:result");
     if (!poison_active()) { // sanitizer build: one more execution (different pre-history), reports are the oracle
         std::string d = run(-1, true, sec);
